@@ -26,13 +26,13 @@ def gen_spec(rng, kind=None, idx=None, update_mode=False):
     rs = _gen_spec(rng, kind, idx)
     # the readers' rarely used, documented keywords
     r = rng.random()
-    if rs['kind'] == 'bpch1' and r < 0.5:
-        nt = rs['spec']['nt']
-        if nt >= 2 and r < 0.25:
-            # (start, stop) of a slice over the time blocks
-            rs['open_kw'] = {'timeslice': [0, nt - 1] if r < 0.12
+    if rs['kind'] == 'bpch1' and r < 0.7:
+        if r < 0.4:
+            # a proper subset of the time blocks: (start, stop) of a slice
+            nt = rs['spec']['nt'] = max(rs['spec']['nt'], 2 + int(r * 10) % 2)
+            rs['open_kw'] = {'timeslice': [0, nt - 1] if r < 0.2
                              else [1, None]}
-        elif r < 0.37:
+        elif r < 0.55:
             rs['open_kw'] = {'noscale': True}
         else:
             rs['open_kw'] = {'nogroup': True}
